@@ -33,6 +33,10 @@ def main() -> int:
             from checks import c05
 
             return c05.run(tier, a.seed)
+        if a.prop == "C08":
+            from checks import c08
+
+            return c08.run(tier, a.seed)
         if a.prop == "C09":
             from checks import c09
 
